@@ -314,16 +314,32 @@ def rule_tree_predicate(ctx, rule):
         for fname, fn in tu.funcs.items():
             if cfront.basename(fn.get('_locfile') or fn.get('_file')) != cfile:
                 continue
-            for n in walk(cfront.body(fn)):
-                if n.get('kind') != 'IfStmt':
-                    continue
-                cond = n['inner'][0]
-                atoms = set()
+            chained = set()
+
+            def cond_atoms(cond):
+                out = set()
                 for x in walk(cond):
                     if x.get('kind') == 'BinaryOperator' and x.get('opcode') == '==':
                         a, b = render(x['inner'][0]), render(x['inner'][1])
                         if b.startswith('REB_GRAVITY_') or b.startswith('REB_COLLISION_'):
-                            atoms.add('%s==%s' % (a, b))
+                            out.add('%s==%s' % (a, b))
+                return out
+
+            def callees(node):
+                """what a branch does: its calls and assignments, rendered (two branches doing the same thing are one action)"""
+                out = sorted({callee_name(x) for x in walk(node) if x.get('kind') == 'CallExpr' and callee_name(x)})
+                out += sorted({render(x) for x in walk(node) if cfront.is_assign(x)})
+                return out
+            for n in walk(cfront.body(fn)):
+                if n.get('kind') != 'IfStmt' or id(n) in chained:
+                    continue
+                atoms = cond_atoms(n['inner'][0])
+                # `if (A) f(); else if (B) f(); else if (C) f();` is the disjunction A || B || C guarding f()
+                cur = n
+                while len(cur['inner']) > 2 and cur['inner'][2].get('kind') == 'IfStmt' and callees(cur['inner'][2]['inner'][1]) == callees(n['inner'][1]) and callees(n['inner'][1]):
+                    cur = cur['inner'][2]
+                    chained.add(id(cur))
+                    atoms |= cond_atoms(cur['inner'][0])
                 if 'r.gravity==REB_GRAVITY_TREE' in atoms and any('COLLISION' in a for a in atoms):
                     sites.append((cfile, fname, cfront.line_of(n), frozenset(atoms)))
     anchor(len(sites) >= 4, 'at least four "tree in use" predicates')
